@@ -8,6 +8,10 @@ from ..gen import cells
 from ..oracle import geometry as G
 from .. import monitor
 
+# monitors are self-sufficient (judge a call from its arguments and result): the repository's own tests run under them
+# as an extra workload in the thorough tier (vf/repotests.py)
+REPOTESTS = True
+
 RULE = ('cells are generated round-robin over 9 kinds (7 crystal families in LAMMPS form, strongly tilted, '
         'randomly rotated) x 3 origin classes x 3 length scales; a case is non-trivial when the cell is not the '
         'unit cube at the origin and at least one tilt/angle/origin component is non-zero; distinct = distinct '
